@@ -202,6 +202,7 @@ def check_history(case, rec):
         def driver():
             root = p.a.root
             model = {}           # slot -> pool index
+            mutation_no = [0]
             for st_ in steps:
                 op, slot, k = st_[0], st_[1] % 3, st_[2] % len(pool)
                 obj = pool[k]
@@ -236,7 +237,8 @@ def check_history(case, rec):
                     if slot in model:
                         tgt = pool[model[slot]]
                         before = _snap(tgt)
-                        did = root.mutate(slot, 7)
+                        mutation_no[0] += 1
+                        did = root.mutate(slot, 1000 + mutation_no[0])     # a fresh value every time: the change is always visible
                         if did and _snap(tgt) == before:
                             problems.append(("mutation-visible", "change through the reference did not reach the owner",
                                              [slot, model[slot]]))
